@@ -369,6 +369,11 @@ func (p *Parser) resolveDeltas(ofsDeltas, refDeltas []*ObjectHeader) error {
 		if err := p.processDelta(d); err != nil {
 			return fmt.Errorf("processing ref-delta at offset %v: %w", d.Offset, err)
 		}
+		// The deltas chained on a thin-pack delta (OFS or REF) are only
+		// reachable from it.
+		if err := visit(d); err != nil {
+			return err
+		}
 	}
 
 	for _, d := range ofsDeltas {
